@@ -70,6 +70,30 @@ edgy!(u8, u16, u32, u64, i8, i16, i32, i64);
 
 pub fn num<T: Edgy>() -> impl Strategy<Value = T> { prop_oneof![5 => any::<T>(), 1 => prop::sample::select(T::edges())] }
 
+/// Keys that are NEAR the keys a protocol treats specially (a suffix or prefix added, the case changed, a character
+/// dropped): an ordinary key for every format, and the kind a too-lenient comparison (prefix match, case folding) swallows.
+pub fn near(special: &'static [&'static str]) -> impl Strategy<Value = String> {
+    (prop::sample::select(special), 0u8 .. 12, prop::sample::select(vec!["s", "Count", "2", "x", "List", "Name", "0"]), prop::sample::select(vec!["x", "sv", "my", "X", "g", "old"])).prop_map(|(k, how, suffix, prefix)| {
+        match how {
+            0 | 1 | 2 => format!("{k}{suffix}"),
+            3 | 4 => format!("{prefix}{k}"),
+            5 => k.to_uppercase(),
+            6 => k.to_lowercase(),
+            7 => {
+                let mut c = k.chars();
+                match c.next() {
+                    Some(f) => format!("{}{}", if f.is_uppercase() { f.to_lowercase().to_string() } else { f.to_uppercase().to_string() }, c.as_str()),
+                    None => String::new(),
+                }
+            }
+            8 => k[.. k.len().saturating_sub(1)].to_string(),
+            9 => format!("{k}{k}"),
+            10 => k.chars().skip(1).collect(),
+            _ => format!("{prefix}{k}{suffix}"),
+        }
+    })
+}
+
 /// Non-empty ASCII identifier-like key.
 pub fn key() -> impl Strategy<Value = String> { "[A-Za-z][A-Za-z0-9]{0,11}".prop_map(|s| s) }
 
